@@ -7,8 +7,8 @@ CONSTANTS
   Forms = {}
   Values = {}
   Stmts = {"if", "else", "while", "notify", "call"}  MaxStmts = 7
-  Devs = {"IndexFieldNamed", "AliasKeepsSourceName", "ExternalIsObject", "CreateFieldNotNamed", "PackageMethodRefInvoked", "VarPackageCountByte", "MatchOperatorBytes", "LoadTableSevenOperands", "IfBodyFlattened", "RelPathInTerm", "ValueNamesFromFinalPlace"}
-  Excluded = {"D1", "D1b", "D2", "D2c", "D3", "D5", "D6", "D7", "D9", "IndexFieldNamed", "AliasKeepsSourceName", "ExternalIsObject", "CreateFieldNotNamed", "PackageMethodRefInvoked", "VarPackageCountByte", "MatchOperatorBytes", "LoadTableSevenOperands", "IfBodyFlattened", "RelPathInTerm", "ValueNamesFromFinalPlace", "InvisibleCallee", "MethodAsRef", "HiddenNameInDeferred", "BankFieldUnitInDeferred"}
+  Devs = {"IndexFieldNamed", "AliasKeepsSourceName", "ExternalIsObject", "CreateFieldNotNamed", "PackageMethodRefInvoked", "VarPackageCountByte", "MatchOperatorBytes", "LoadTableSevenOperands", "IfBodyFlattened", "RelPathInTerm", "ValueNamesFromFinalPlace", "EmptyBufferInDeferred"}
+  Excluded = {"D1", "D1b", "D2", "D2c", "D3", "D5", "D6", "D7", "D9", "IndexFieldNamed", "AliasKeepsSourceName", "ExternalIsObject", "CreateFieldNotNamed", "PackageMethodRefInvoked", "VarPackageCountByte", "MatchOperatorBytes", "LoadTableSevenOperands", "IfBodyFlattened", "RelPathInTerm", "ValueNamesFromFinalPlace", "EmptyBufferInDeferred", "InvisibleCallee", "MethodAsRef", "HiddenNameInDeferred", "BankFieldUnitInDeferred"}
   Emit = TRUE  Bug = ""
 INIT Init
 NEXT Next
